@@ -1,7 +1,10 @@
 use super::job_queue::*;
 use super::queue_state::*;
 
+#[cfg(not(logicalshift_desync_verif))]
 use std::thread;
+#[cfg(logicalshift_desync_verif)]
+use desync_verif_rt::thread;
 
 ///
 /// Struct that holds the currently active queue and marks it as panicked if dropped during a panic
